@@ -76,6 +76,12 @@ SchemaKeys == {"type", "format", "enum", "minimum", "maximum", "exclusiveMinimum
                "multipleOf", "minLength", "maxLength", "pattern", "minItems", "maxItems", "uniqueItems"}
 AsSchema(p) == [k \in (DOMAIN p) \cap SchemaKeys |-> p[k]]
 
+\* x-go-enum-ci: true on a parameter (or items) makes its enum case-insensitive (documented extension); false, or no
+\* extension, leaves the enum as Swagger defines it.  "AB" is the only lexeme of the universe with capitals.
+FoldStr(x) == IF x = "AB" THEN "ab" ELSE x
+ValidP(p, v) ==
+  IF Get(p, "enumCI", FALSE) /\ Tag(v) = "str" THEN Valid(<<>>, AsSchema(p), Str(FoldStr(Val(v)))) ELSE Valid(<<>>, AsSchema(p), v)
+
 DefaultOrUnset(p) == IF Has(p, "default") THEN Ok(p.default) ELSE Unset
 
 \* items: p is an array descriptor (type = "array", items, cf); pieces are token sequences
@@ -87,7 +93,7 @@ BindItems(p, pieces) ==
           THEN BindItems(it, SplitBy(Get(it, "cf", "csv"), piece))
           ELSE LET c == Convert(it.type, Cat(piece)) IN
                IF ~c.ok THEN Fail
-               ELSE IF Valid(<<>>, AsSchema(it), c.val) THEN c ELSE Fail
+               ELSE IF ValidP(it, c.val) THEN c ELSE Fail
       rs == [i \in DOMAIN pieces |-> One(pieces[i])]
   IN IF \E i \in DOMAIN rs : ~rs[i].ok THEN Fail
      ELSE LET arr == Arr([i \in DOMAIN rs |-> rs[i].val]) IN
@@ -114,7 +120,7 @@ Bind(p, raw) ==
         ELSE DefaultOrUnset(p)
       ELSE LET c == Convert(p.type, Cat(last)) IN
            IF ~c.ok THEN Fail
-           ELSE IF Valid(<<>>, AsSchema(p), c.val) THEN c ELSE Fail
+           ELSE IF ValidP(p, c.val) THEN c ELSE Fail
     ELSE
       LET cf     == Get(p, "cf", "csv")
           pieces == IF cf = "multi" THEN raw.vals ELSE SplitBy(cf, last) IN
